@@ -3,6 +3,7 @@ package sst
 import (
 	"bytes"
 	"cmp"
+	"encoding/json"
 	"errors"
 	"fmt"
 	"io"
@@ -73,6 +74,48 @@ type TableDocument struct {
 	URI         string
 	StartSeqNum uint64
 	EndSeqNum   uint64
+}
+
+// tableDocumentJSON is the serialized form of TableDocument. Keys are arbitrary
+// bytes but JSON strings replace invalid UTF-8, so keys are written as []byte
+// (base64) to read back exactly.
+type tableDocumentJSON struct {
+	StartKey    []byte
+	EndKey      []byte
+	Size        uint64
+	EntriesSize uint64
+	URI         string
+	StartSeqNum uint64
+	EndSeqNum   uint64
+}
+
+func (d TableDocument) MarshalJSON() ([]byte, error) {
+	return json.Marshal(tableDocumentJSON{
+		StartKey:    []byte(d.StartKey),
+		EndKey:      []byte(d.EndKey),
+		Size:        d.Size,
+		EntriesSize: d.EntriesSize,
+		URI:         d.URI,
+		StartSeqNum: d.StartSeqNum,
+		EndSeqNum:   d.EndSeqNum,
+	})
+}
+
+func (d *TableDocument) UnmarshalJSON(data []byte) error {
+	var j tableDocumentJSON
+	if err := json.Unmarshal(data, &j); err != nil {
+		return err
+	}
+	*d = TableDocument{
+		StartKey:    string(j.StartKey),
+		EndKey:      string(j.EndKey),
+		Size:        j.Size,
+		EntriesSize: j.EntriesSize,
+		URI:         j.URI,
+		StartSeqNum: j.StartSeqNum,
+		EndSeqNum:   j.EndSeqNum,
+	}
+	return nil
 }
 
 // NewTableFromDocument initializes an SST table from a table object in a
